@@ -208,6 +208,16 @@ def wrap_checks(g):
             ctx._depth += 1
             try:
                 return fn(ctx, case, *a, **k)
+            except (AssertionError, _Abort):
+                raise
+            except Exception as e:                      # noqa: BLE001
+                # an exception raised by the code under test outside an explicit guard is a failure of that case,
+                # not a harness error (only at the outermost check call, so the whole case is recorded)
+                fs = in_repo_traceback(e.__traceback__)
+                if fs is None or ctx._depth != 1:
+                    raise
+                ctx.fail('%s/unguarded-exception:%s@%s:%s' % (fn.__name__, type(e).__name__, os.path.basename(fs.filename), fs.name),
+                         case, {'exception': repr(e)[:300], 'line': fs.lineno})
             finally:
                 ctx._depth -= 1
         w._wrapped = True
